@@ -38,6 +38,10 @@ CHECKS = {
         'property-based testing: generated grammars x inputs x generated semantics objects; reference oracle RefPEG-with-actions; call-log multiset comparison; exception identity check; model and generated parser',
         'Generated grammars (with rule parameters, @nomemo) x inputs x semantics {identity, tagging, _default only, mixed, FailedSemantics on a value from the reference trace, raising one of 10 exception classes on such a value}: outcome/AST equal to the reference running the same actions; action calls are a sub-multiset of the memo-free reference\'s with the same support (exact when every rule is @nomemo); a foreign exception reaches the caller as the same object. Exploration.',
         REF_NOTE + '; shapes affected by known findings F-C01-a (open-list rule values) and F-C02-a (generated parser name binding) are not judged', 'DESIGN.md §3 C06'),
+    'C07': (
+        'property-based differential testing: marked plain-AST parse vs asmodel parse (synthesized classes) vs parse with the generated model module\'s classes, lock-step tree walk; own attribute walk vs children()/parent; counting walkers',
+        'Generated grammars with typed rules (unique class names per case, consistent base chains, builtin types, dict-attribute-colliding element names, typed rules inside closures/optionals/named lists) x derived inputs: class name, declared bases, attributes == named elements (or ast == value), builtin conversion; children()/parent agree with an independent attribute walk; DepthFirst/BreadthFirst/PostOrder walkers reach every node; generated-module classes give the same tree. Exploration.',
+        'the plain-AST parse (through a marking semantics) is the reference for values; declared-but-unset fields of generated classes may be None', 'DESIGN.md §3 C07'),
     'C09': (
         'property-based testing: metamorphic relation over whitespace/comment layouts + reference oracle RefPEG under the effective configuration + layering differential (compile-time < directive < parse-time)',
         'Generated grammars x configurations (whitespace default/regex/none, nameguard, namechars, ignorecase, comments and eol_comments as directives or settings) x sentences in base/varied/adversarial layouts: outcome(varied)==outcome(base); every layout agrees with the reference; each setting given at any subset of the three layers behaves like the single effective value. Exploration.',
